@@ -76,6 +76,24 @@ def main(tier_):
                 cases.append(dict(id="thread|%s|%s|%s" % (kind, acc, bname), tree=TREE + [dict(id=20, p=2, n="decoy", k="file")], feat=feat, trace=False, cold=True,
                                   calls=[dict(op="reopen_in_thread", path="d/t_" + kind, decoy="root/decoy", oflags=fl)],
                                   meta=dict(g=dict(kind=kind, acc=acc, extra="", num=999, hist="thread-private-fd-table", expect=dict(ok=True, ino=1)), api="rust", backend=bname, oflags=fl, thread=True)))
+    # the host's /proc over-mounted as a whole (empty tmpfs): no effect for callers that get a private procfs (new mount
+    # API available), and at worst an error -- never another object, never a panic -- for the others
+    from checks import scenarios
+    for kind in ("file", "dir"):
+        for acc in ("RDONLY", "PATH"):
+            for fname, feat in scenarios.FEATS:
+                fl = ACC[acc] | (O["NONBLOCK"] if acc != "PATH" else 0)
+                private = fname in ("kernel", "emulated")
+                cases.append(dict(id="procmount|%s|%s|%s" % (kind, acc, fname), tree=TREE, feat=feat, trace=False, cold=True, mounts=[dict(target="/proc", kind="tmpfs", src="")],
+                                  calls=[dict(op="resolve", path="d/t_" + kind, nofollow=True, api="rust"), dict(op="reopen", of=0, oflags=fl, api="rust")],
+                                  meta=dict(g=dict(kind=kind, acc=acc, extra="", num=999, hist="host /proc over-mounted by an empty tmpfs", expect=dict(ok=True, ino=1)), api="rust", backend=fname, oflags=fl,
+                                            may_fail=not private)))
+    # ... and a failing call in that environment is an ordinary error (the error paths pretty-print descriptors through /proc)
+    for fname, feat in scenarios.FEATS:
+        cases.append(dict(id="procmount|missing|%s" % fname, tree=TREE, feat=feat, trace=False, cold=True, mounts=[dict(target="/proc", kind="tmpfs", src="")],
+                          calls=[dict(op="resolve", path="d/t_file", nofollow=True, api="rust"), dict(op="resolve", path="d/nonexistent", api="rust")],
+                          meta=dict(g=dict(kind="file", acc="PATH", extra="", num=999, hist="host /proc over-mounted by an empty tmpfs; lookup of a missing entry", expect=dict(ok=False, err="ENOENT")),
+                                    api="rust", backend=fname, oflags=0, may_fail=False)))
     cases.sort(key=lambda c: json.dumps(c["feat"]))
     res = run_pv(cases, jobs=12, tag="C09")
     res, _ = rerun_noisy(cases, res, tag="C09r")
@@ -100,7 +118,9 @@ def main(tier_):
         if got[0] == "err" and got[1] == "EINVAL" and "capi_id" in x and exp == ("err", "InvalidArgument"):
             got = ("err", "InvalidArgument")
         problems = []
-        if exp[0] == "ok":
+        if exp[0] == "ok" and got[0] == "err" and c["meta"].get("may_fail"):
+            stats["hostproc_error_" + str(got[1])] += 1      # a host-visible handle may only fail
+        elif exp[0] == "ok":
             if got[0] != "ok":
                 problems.append("failed with %s, expected a new description of the handle's inode" % (got,))
             else:
@@ -130,6 +150,6 @@ def main(tier_):
     cov = dict(states=tlc["distinct"], transitions=tlc["states"], traces_validated_against_impl=stats["cases"], samples=samples or [dict(note="none")], evaluations=len(cases),
                distinct_nontrivial=len({json.dumps(c["meta"]["g"], sort_keys=True) for c in cases if c["meta"]["g"]["hist"] != "none" or c["meta"]["g"]["num"] != 999}),
                rule="case = (inode kind, access mode, extra flag, descriptor number, history) from TLC x API x feature set; non-trivial = a history was applied or the descriptor number was forced",
-               exhaustive=not quick, generated=total, skipped=stats["skipped"], build_s=round(build_s, 1))
+               exhaustive=not quick, generated=total, skipped=stats["skipped"], host_proc_overmount={k: n for k, n in stats.items() if k.startswith("hostproc_")}, build_s=round(build_s, 1))
     write_evidence("C09", tier_, "model_checking", cov, ASSUME, time.time() - t0, len(v.violations))
     return rc
